@@ -241,6 +241,8 @@ h("cont.H_OptionalFault", map[string]int{"rounds": 3, "order_schemes": 1}, map[s
 	hg2 := h("cont.H_Conc", map[string]int{"ops": 1, "order_schemes": 1, "worlds": 1, "vars": 1, "g2": 1}, map[string]int{"ops": 1, "order_schemes": 1, "worlds": 1, "vars": 3, "g2": 1}, []string{"both_done"}, 0, concDesc+g2Desc)
 	hnochild := h("cont.H_Conc", map[string]int{"ops": 1, "order_schemes": 1, "worlds": 2, "nochild": 2, "vars": 1, "cctx": 1}, map[string]int{"ops": 1, "order_schemes": 1, "worlds": 4, "nochild": 2, "vars": 3, "cctx": 1}, []string{"both_done"}, 0, concDesc+"; here the shared scope has NO child of its own when the operations start (a scope without children takes another path through Close); a scope handed out by a CreateScope that overlapped the Close of its parent must be closed (context cancelled, goroutines gone)")
 	hg2w1 := h("cont.H_Conc", map[string]int{"ops": 1, "order_schemes": 1, "worlds": 2, "world_only": 1, "vars": 1, "g2": 1, "yieldclose": 0, "opset": 1}, map[string]int{"ops": 1, "order_schemes": 1, "worlds": 2, "world_only": 1, "vars": 3, "g2": 1, "yieldclose": 0, "opset": 0}, []string{"both_done"}, 0, concDesc+g2Desc+"; here: the world with a scoped initializer (scope creation runs user code and resolves its parameters), Close methods do not yield (the G1 x G2 product with yielding Close methods is out of reach: one operation pair alone has 370 000 schedules), operation pairs with at least one closing operation")
+	hg2c := hg2 // C13's share of the G2 run: operation pairs with at least one closing operation
+	hg2c.Quick = map[string]int{"ops": 1, "order_schemes": 1, "worlds": 1, "vars": 1, "g2": 1, "opset": 1}
 	hcb := h("cont.H_CloseInCallback", map[string]int{"order_schemes": 1}, map[string]int{"order_schemes": 2}, []string{"callback_closed"}, 10, cbDesc)
 	properties = append(properties,
 		propertySpec{ID: "C09", Harnesses: []harnessSpec{hcb, hrace, hrace2, hg2, hg2w1,
@@ -249,7 +251,7 @@ h("cont.H_OptionalFault", map[string]int{"rounds": 3, "order_schemes": 1}, map[s
 		}},
 		propertySpec{ID: "C13", Harnesses: []harnessSpec{
 			h("cont.H_Closed", map[string]int{"order_schemes": 2}, map[string]int{"order_schemes": 4}, []string{"close_node", "cancel_scope_ctx", "cancel_child_ctx"}, 20, closedDesc),
-			hcb, hc, hg2, hg2w1,
+			hcb, hc, hg2c, hg2w1,
 			h("cont.H_Dispose", with(dsp(0, 2, 4, 0, 1, 0, 1), "tree", 1), with(dsp(0, 2, 4, 1, 2, 0, 1), "tree", 1), dspCov, 0, dspDesc),
 		}},
 	)
